@@ -169,7 +169,8 @@ EXTRA = {
  "C14": " C14_code_apply_overrides: the override / removal / addition loops of _init_config_parser regenerated from the source, run on the model's parser operations, are applyOps for every "
         "file and operation lists; C14_code_parse_item_value/_novalue, C14_code_cli_operations, C14_cli_dict_model: the command-line layer (_create_override_tuple, _item_id, the ordered "
         "dictionary of _make_config_parser) regenerated from the source is cliOverrides.",
- "C16": " C16_code_pair_species(_iff/_no_unpack), C16_split_spec, C16_code_signature_check: the pair-key parser and the signature name-clash loop regenerated from the source are splitKey / validSignature.",
+ "C16": " C16_code_pair_species(_iff/_no_unpack), C16_split_spec, C16_code_signature_check: the pair-key parser and the signature name-clash loop regenerated from the source are splitKey / validSignature; "
+        "C16_code_read_from_parser: an unknown target is a configuration error before any factory runs.",
  "C17": " C17_code_lammps/_dlpoly/_gulp/_setfl/_setfl_fs/_tabeam/_tabeam_fs/_tabulation_objects: for every whole-file writer and tabulation class on the text targets (ADP included) a "
         "destination-mode twin regenerated from the same source (one chunk per write call reaching the destination) receives, for EVERY input, exactly one chunk holding the complete "
         "table, or nothing when the writer itself raises; C17_code_trace: that history is traceBuffered.",
@@ -179,6 +180,8 @@ EXTRA = {
         "the form registry regenerated from the source decide dupPairs / dupLabels.",
  "C12": " C12_code_eam_builder(_order_free/_strict): EAM_Potential_Builder._init_eampotentials and the eleven methods it uses, regenerated from the source with the iteration order of its one "
         "set loop handed in as a parameter, build the model's eamBuild for EVERY permutation the hash seed can produce.",
+ "C08": " C08_code_builder_tuple/_chain/_ranges/_pair_builder: Potential_Form_Builder and the pair builder regenerated from the source (while-walk along .next, registry look-ups, except clauses) "
+        "hand the multi-range callable one range per range of the definition, in order, with its own start and marker.",
  "C09": " C09_code_modifier_reduce/_sum_product_pow/_sum_value/_product_value: the reducing modifiers of _modifiers.py, regenerated from the source, fold plus/product/pow from the "
         "left over the callables of all their arguments; C09_code_register_with_each_other/_every_form_sees_every_other: the registry registers every form with every other, both ways.",
  "C07": " C07_pow_d1_zero_base/_d2_zero_base: the guards of pow.deriv / pow.deriv2 (vanishing base, constant whole exponent), regenerated from the source, return the derivatives.",
